@@ -72,6 +72,9 @@ func (m *multiExecutor) ExecContext(ctx context.Context, f exec.CallbackWithName
 		return nil, err
 	}
 
+	// the two lists come out of two walks over a map: pair every before image with the after image of its table
+	afterImages = pairByTable(beforeImages, afterImages)
+
 	for _, beforeImage := range beforeImages {
 		m.execContext.TxCtx.RoundImages.AppendBeofreImage(beforeImage)
 	}
@@ -81,6 +84,38 @@ func (m *multiExecutor) ExecContext(ctx context.Context, f exec.CallbackWithName
 
 	return res, nil
 }
+
+// pairByTable puts the after images into the order of the before images, table by table; images it cannot pair
+// (another number of images, a table that occurs twice) stay as they are
+func pairByTable(beforeImages, afterImages []*types.RecordImage) []*types.RecordImage {
+	if len(beforeImages) != len(afterImages) {
+		return afterImages
+	}
+	byTable := make(map[string]*types.RecordImage, len(afterImages))
+	for _, image := range afterImages {
+		if image == nil {
+			return afterImages
+		}
+		key := strings.ToLower(image.TableName)
+		if _, twice := byTable[key]; twice {
+			return afterImages
+		}
+		byTable[key] = image
+	}
+	paired := make([]*types.RecordImage, 0, len(afterImages))
+	for _, image := range beforeImages {
+		if image == nil {
+			return afterImages
+		}
+		after, ok := byTable[strings.ToLower(image.TableName)]
+		if !ok {
+			return afterImages
+		}
+		paired = append(paired, after)
+	}
+	return paired
+}
+
 func (m *multiExecutor) beforeImage(ctx context.Context, parseContext *types.ParseContext) ([]*types.RecordImage, error) {
 	if len(parseContext.MultiStmt) == 0 {
 		return nil, nil
